@@ -84,7 +84,7 @@ def assoc_events(ctx):
     unassigned tag) followed by signatures: which signatures does PGPy hold on which component, in memory and after export."""
     pgpy = import_pgpy()
     ev = []
-    for variant in ('plain', 'v5-subkey-between', 'unknown-tag-after-uid', 'v5-subkey-last', 'v5-subkey-first', 'trust-and-v5', 'two-unknown', 'five-octet-subpacket-lengths', 'latin1-uid', 'local-signatures', 'certification-by-unsupported-algorithm', 'subkey-without-binding'):
+    for variant in ('plain', 'v5-subkey-between', 'unknown-tag-after-uid', 'v5-subkey-last', 'v5-subkey-first', 'trust-and-v5', 'two-unknown', 'five-octet-subpacket-lengths', 'latin1-uid', 'local-signatures', 'certification-by-unsupported-algorithm', 'subkey-without-binding', 'photo-id-private-encoding'):
         for secret in (False, True):
             fk = build.ForeignKey('ed25519')
             s1 = enc.Recipient('cv25519', created=fk.created + 1)
@@ -137,6 +137,14 @@ def assoc_events(ctx):
                 ob = bytes([4, 0x10, 20, 8]) + struct.pack('>H', len(hs)) + hs + struct.pack('>H', 10) + build.subpacket(16, bytes(range(8))) + b'\xab\xcd' + \
                     build.mpi(2 ** 255 + 12345) + build.mpi(2 ** 254 + 999)
                 ins[uididx[1]] = build.pkt(2, ob)
+            if variant == 'photo-id-private-encoding':
+                # a user attribute whose image subpacket uses a private-use encoding octet (101), self-certified and certified by a third party
+                imgdata = bytes((7 * i_) % 256 for i_ in range(96))
+                ua = build.sub_len(1 + 16 + len(imgdata)) + b'\x01' + b'\x10\x00\x01\x65' + bytes(12) + imgdata
+                tp = build.ForeignKey('ed25519', created=fk.created + 50)
+                c1, _ = build.sig_packet(fk, 0x13, 'sha256', [], [], build.subject_octets(0x13, primary=fk.pub_body, uid=ua, isuid=False), created=fk.created + 64)
+                c2, _ = build.sig_packet(tp, 0x10, 'sha256', [], [], build.subject_octets(0x10, primary=fk.pub_body, uid=ua, isuid=False), created=fk.created + 65)
+                ins[subidx[0]] = build.pkt(17, ua) + c1 + c2        # after the identities, before the first subkey
             if variant == 'subkey-without-binding':
                 # what a key server or a minimiser may hand out: the last subkey packet without any signature after it
                 raws = raws[:-1]
